@@ -13,8 +13,12 @@ PLAN = {
         "thorough": [S("hook-default"), S("m3-none", tag="nosimd")],
     },
     "C02": {
-        "quick": [S("hook-default")],
-        "thorough": [S("hook-default"), S("m3-none", tag="nosimd")],
+        # header distances (checksum, length, Q ratios) have table / double-table / arithmetic variants selected by features:
+        # the complete per-byte sweeps run in each of them
+        "quick": [S("hook-default"), S("m4-embedded-min", tag="embedded", only="header"), S("m3-none", tag="nosimd", only="header")],
+        "thorough": [S("hook-default"), S("m3-none", tag="nosimd"), S("m4-embedded-min", tag="embedded"),
+                     S("t-len-table-only", tag="len-table", only="header"), S("t-q-table-only", tag="q-table", only="header"),
+                     S("t-q-table-double-only", tag="q-table-double", only="header")],
     },
     "C04": {
         "quick": [S("hook-default"), S("m3-none", tag="tables"), S("m6-static-ssse3", tag="half-tables", only="canonical"), S("m7-static-sse41", tag="quarter-table", only="canonical"),
@@ -45,8 +49,10 @@ PLAN = {
                   "dbg-default", "dbg-nosimd", "dbg-unsafe"]],
     },
     "C08": {
-        "quick": [S("hook-default")],
-        "thorough": [S("hook-default"), S("m3-none", tag="nosimd")],
+        # the metric laws are claimed for every dispatchable distance kernel: static SSE2 / SSE4.1 / AVX2 and no-SIMD builds too
+        "quick": [S("hook-default"), S("m5-static-sse2", tag="sse2"), S("m7-static-sse41", tag="sse41"), S("m3-none", tag="nosimd"), S("m4-embedded-min", tag="embedded")],
+        "thorough": [S("hook-default"), S("m3-none", tag="nosimd"), S("m5-static-sse2", tag="sse2"), S("m6-static-ssse3", tag="ssse3"), S("m7-static-sse41", tag="sse41"),
+                     S("m8-static-avx2-unsafe", tag="avx2-unsafe"), S("m4-embedded-min", tag="embedded")],
     },
     "C10": {
         "quick": [S("hook-default")],
@@ -89,6 +95,10 @@ PLAN = {
                   S("asan0-default", tag="asan0-c07", check="C07", only="agg-backends-lanes", env={"ASAN_OPTIONS": "detect_leaks=0"}),
                   S("asan0-default", tag="asan0-c07s", check="C07", only="agg-backends-shapes-48", env={"ASAN_OPTIONS": "detect_leaks=0"})],
         "thorough": [
+                  # E6: the fixed work list under the Miri interpreter (UB monitor), three builds with feature 'unsafe'
+                  S("miri-hook-avx2-unsafe", tag="miri-hook", miri={"depth": 1, "shards": 16}),
+                  S("miri-plain-unsafe", tag="miri-plain", miri={"depth": 1, "shards": 16}),
+                  S("miri-plain-nosimd-unsafe", tag="miri-nosimd", miri={"depth": 1, "shards": 16}),
                   S("asan0-default", tag="asan0-c07s", check="C07", only="agg-backends-shapes", env={"ASAN_OPTIONS": "detect_leaks=0"}),
                   S("asan0-default", tag="asan0-c02", check="C02", only="body-fill", env={"ASAN_OPTIONS": "detect_leaks=0"}),
                   S("asan0-default", tag="asan0-c07", check="C07", only="agg-backends-lanes", env={"ASAN_OPTIONS": "detect_leaks=0"}),
@@ -131,7 +141,9 @@ PLAN = {
     },
     "C09": {
         "quick": [S("hook-default")],
-        "thorough": [S("hook-default"), S("m3-none", tag="nosimd")],
+        # "no code for lengths above MAX" also for one slice longer than 4 GiB: C11's section, re-run here (35 s per variant, so thorough only;
+        # on every change the quick tier of C11 runs it)
+        "thorough": [S("hook-default"), S("m3-none", tag="nosimd"), S("hook-explore", tag="huge-slice", check="C11", only="single-huge-update")],
     },
 }
 
@@ -214,11 +226,11 @@ LEVEL_TEXT = {
         "Trusted: serde's data model contract for visitors; the three format crates. Bytes events in human-readable mode are only required not to be accepted with a value the text parser would not give.",
         []),
     "C17": _lt(
-        "monitors attached to exhaustively enumerated executions: invariant monitor (hook) over complete domains and over contract-violating Read scripts, the other checks' enumerations re-run in a debug-assertions + overflow-checks build with panic classification, and one child process per lying-reader script in builds where invariant!() is a real optimiser assumption",
-        "Model checking decides totality through monitors on every explored execution: (1) with the hook every invariant!() is an observable event in every feature configuration; it is checked on all 2^32 lengths, on every binary value of C06's enumeration, and on every reader script with <= 2 deviations that contains a lie about the bytes read (a false invariant reachable through the safe API is undefined behaviour under feature 'unsafe'); (2) the enumerations of C01, C03, C05, C06, C11, C12 are re-run in a build with debug assertions and overflow checks, where any panic other than the documented bucket-index one is a violation; (3) in the real 'unsafe' build without the hook each lying-reader script runs in its own child process and death by a signal is reported.",
+        "monitors attached to exhaustively enumerated executions: invariant monitor (hook) over complete domains and over contract-violating Read scripts, the other checks' enumerations re-run in a debug-assertions + overflow-checks build with panic classification, one child process per lying-reader script in builds where invariant!() is a real optimiser assumption, AddressSanitizer builds, and (thorough) a fixed work list executed under the Miri interpreter in three builds with feature 'unsafe'",
+        "Model checking decides totality through monitors on every explored execution: (1) with the hook every invariant!() is an observable event in every feature configuration; it is checked on all 2^32 lengths, on every binary value of C06's enumeration, and on every reader script with <= 2 deviations that contains a lie about the bytes read (a false invariant reachable through the safe API is undefined behaviour under feature 'unsafe'); (2) the enumerations of C01, C03, C05, C06, C11, C12 are re-run in a build with debug assertions and overflow checks, where any panic other than the documented bucket-index one is a violation; (3) in the real 'unsafe' build without the hook each lying-reader script runs in its own child process and death by a signal is reported; (4) AddressSanitizer builds (release and opt-level 0) run the backend and buffer enumerations; (5) thorough: a fixed list of 1 406 small work items covering every public operation and every compiled SIMD backend is executed under Miri (16 shards) in three builds with feature 'unsafe'; undefined behaviour reported by the interpreter is a violation, every result is also judged by the reference model.",
         "DESIGN.md section 2, C17",
-        "Limits: undefined behaviour is visible only through these monitors (false invariant, panic, signal); raw-pointer SIMD code touches addresses that depend only on fixed-size array references. Non-x86 backends are not compiled here.",
-        ["UB without an observable effect in these builds is not detected"]),
+        "Limits: undefined behaviour is visible only through these monitors (false invariant, panic, signal, sanitizer report, interpreter report); raw-pointer SIMD code touches addresses that depend only on fixed-size array references. Non-x86 backends are not compiled here.",
+        ["UB without an observable effect outside the Miri work list and the ASan enumerations is not detected"]),
     "C18": _lt(
         "allocation monitor (counting global allocator, armed per operation) attached to exhaustively enumerated call sequences in several build configurations, first calls in fresh processes, and a finite list of no-std build obligations",
         "A counting #[global_allocator] is armed around each core operation (new, update in piece rotations, processed_len, finalize_with_options x 32, finalize, clone, drop, TryFrom, store_into_*, from_str_bytes accepting and rejecting, FromStr, compare*, accessors, clear_checksum, string compare) for every short input, stream prefixes and every one-byte-deviation hash value, every variant, in the default-dispatch, no-SIMD and static-SIMD builds; each operation kind is also run as the very first library call of a fresh process (dispatch initialisation). The invariant is allocator calls == 0. The documented allocators are exercised to show the counter is live. The library must build with std and alloc disabled in 8 feature sets.",
